@@ -462,6 +462,8 @@ impl Session {
             Runtime::Sync => {
                 let provider = TableProvider::new(u.clone());
                 provider.vary_answers();
+                // one universe in sixteen: some candidate lists name a solvable twice
+                provider.dup_listing.set(crate::runner::hash_of(&(&*u, 5u8)) % 16 == 0);
                 let mut s = Solver::new(provider);
                 if let Some((a, d)) = activity {
                     s = s.with_activity_params(a, d);
@@ -476,6 +478,8 @@ impl Session {
                 let sched = Sched::new(policy.clone(), immediate.clone());
                 let provider = TableProvider::new(u.clone()).with_sched(sched.clone());
                 provider.vary_answers();
+                // one universe in sixteen: some candidate lists name a solvable twice
+                provider.dup_listing.set(crate::runner::hash_of(&(&*u, 5u8)) % 16 == 0);
                 // a fifth of the universes: requests that take two scheduler completions
                 provider.two_step.set(crate::runner::hash_of(&(&*u, 2u8)) % 5 == 0);
                 let mut s = Solver::new(provider).with_runtime(SchedRuntime {
